@@ -268,6 +268,7 @@ fn claim(depth: u32) -> BoxedStrategy<ClaimSpec> {
     2 => (key(), gen::json_value(depth)).prop_map(|(k, v)| ClaimSpec::Any(k, v)),
     1 => gen::short_text().prop_map(|t| ClaimSpec::Iss(t.render())),
     1 => (0u8..7).prop_map(ClaimSpec::DefaultOf),
+    1 => (key(), 0u64..1_000_000).prop_map(|(k, n)| ClaimSpec::SharedCounter(k, n)),
     1 => gen::short_text().prop_map(|t| ClaimSpec::Sub(t.render())),
     1 => gen::short_text().prop_map(|t| ClaimSpec::Aud(t.render())),
     1 => gen::short_text().prop_map(|t| ClaimSpec::Jti(t.render())),
